@@ -1282,7 +1282,7 @@ var c14TimelockLeaf, c14SigsReqLeaf = func() (string, string) {
 
 func runC14(c *fw.Ctx) {
 	res := c.Res
-	res.Rule = "policy/witness scenarios: (1) EXHAUSTIVE over all policy trees of depth<=1 with <=3 children over leaf kinds {above,after,pk,hash,opaque,uc} and every threshold count 0..k+1, and of depth 2 with <=2 children per level (quick tier: deterministic subsample of depth 2; depth-2/breadth-3 sampled); each with its natural witnesses, every lock at lock-1/lock/lock+1, and each of the first 3 signatures/preimages corrupted, missing, swapped with its neighbour, plus surplus witnesses front and back; (2) legacy unlock conditions: all key lists of <=3 keys over {ed25519, duplicate, unknown algorithm, entropy, short, long} x required counts x all signature sequences of length <=4 over {sig0,sig1,sig2,invalid} (quick: subsample); (3) random satisfiable-by-construction and arbitrary trees with mutations; (4) complexity limits (255/256 children, 1024/1025 sub-policies, chains to depth 100000, decoder nesting 32/33); (5) addresses of every policy and of opaquified variants, standard addresses, binary codec incl. malformed stream; (6) directed family around the special cases of the address code (the conjuncts of the standard-unlock-hash fast path as read from the source: every unlock-conditions shape over algorithm {ed25519, zero, entropy, unknown, ...} x key length {0,31,32,33} x timelock {0,1} x required {0,1,2} x {0,1,2} keys): UnlockHash() and Address() vs model, no two different policies may share an address, and a v2 spend of an output at StandardUnlockHash(K)/StandardAddress(K) by any other policy must be refused by ValidateV2Transaction. A case is non-trivial when Verify accepts or at least one witness is supplied; distinct by full scenario."
+	res.Rule = "policy/witness scenarios: (1) EXHAUSTIVE over all policy trees of depth<=1 with <=3 children over leaf kinds {above,after,pk,hash,opaque,uc} and every threshold count 0..k+1, and of depth 2 with <=2 children per level (quick tier: deterministic subsample of depth 2; depth-2/breadth-3 sampled); each with its natural witnesses, every lock at lock-1/lock/lock+1, and each of the first 3 signatures/preimages corrupted, missing, swapped with its neighbour, plus surplus witnesses front and back; (2) legacy unlock conditions: all key lists of <=3 keys over {ed25519, duplicate, unknown algorithm, entropy, short, long} x required counts x all signature sequences of length <=4 over {sig0,sig1,sig2,invalid} (quick: subsample); (3) random satisfiable-by-construction and arbitrary trees with mutations; (4) complexity limits (255/256 children, 1024/1025 sub-policies, chains to depth 100000, decoder nesting 32/33); (5) addresses of every policy and of opaquified variants, standard addresses, binary codec incl. malformed stream; (6) directed family around the special cases of the address code (the conjuncts of the standard-unlock-hash fast path as read from the source: every unlock-conditions shape over algorithm {ed25519, zero, entropy, unknown, ...} x key length {0,31,32,33} x timelock {0,1} x required {0,1,2} x {0,1,2} keys): UnlockHash() and Address() vs model, no two different policies may share an address, and a v2 spend of an output at StandardUnlockHash(K)/StandardAddress(K) by any other policy must be refused by ValidateV2Transaction; (7) multi-input transactions: for every satisfiable policy shape two siacoin and two siafund outputs at its address, spent together with (good,good), (good,bad), (bad,good), (bad,same SatisfiedPolicy) for every witness variation (signature corrupt/zero/missing/surplus/stranger/reordered, preimage corrupt/missing/surplus, no witnesses, all-opaque threshold, other policy), siacoin/siafund mixes and inputs at different addresses: ValidateV2Transaction (ValidateBlock on a subsample) must equal the conjunction of the per-input verdicts (oracle) and the Lean model of the loop (policy-txn). A case is non-trivial when Verify accepts or at least one witness is supplied; distinct by full scenario."
 	r := &c14Run{c: c, res: res, f: c14NewFix(c, 9), addrSeen: map[string]bool{}}
 
 	if c.Replay != "" {
@@ -1370,6 +1370,8 @@ func runC14(c *fw.Ctx) {
 	r.standardFamily()
 	// (6) directed family around the special cases of the address code; collisions; end to end
 	r.specialFamily()
+	// (7) multi-input transactions through consensus.ValidateV2Transaction / ValidateBlock
+	r.multiFamily()
 	r.flush()
 	r.flushSimple()
 	res.Note("slowest single Verify: %v (%s)", time.Duration(r.slowestNs), r.slowestWhat)
@@ -1433,6 +1435,8 @@ func (r *c14Run) replay(path string) {
 		r.addressChecks(p, "replay", 64)
 	case "collision", "e2e":
 		r.specialFamily()
+	case "multi":
+		r.multiFamily()
 	default:
 		r.res.Note("replay kind %q: re-running the full family instead", v.Replay.Kind)
 		r.standardFamily()
